@@ -130,12 +130,12 @@ var specs = map[string]spec{
 		Assumptions: append([]string{"the simulated client is compliant: it sends data frames only after it has received the complete 101 response, possibly immediately", "FIFO of the asynchronous send queue is judged from the peer's side (whole messages, per-writer order), not with a separate porcupine model"}, assumeKernel...),
 	},
 	"C11": {
-		World: "stream", Level: "exploration", QuickS: 30, ThoroughS: 600,
-		Rule: "cases = a mix of the C09 handler programs (half with transport write failures, biased to 64KiB-crossing writes), the C12 round trips (40% with sender transport failures), the C13 byzantine frame sequences, the C08 corrupted request streams through ServerProcessor/BodyReader and the C15 limit scenarios; the primary oracle is the ownership-tracking allocator installed as mempool.DefaultMemPool (stable pointer, like MemPool) and as BodyAllocator (moving when capacity is exceeded, like AlignedAllocator): Free/Append/AppendString/Realloc on a freed or foreign buffer, second Free, write into a quarantined (poisoned, never recycled) buffer, poison showing up on the wire; non-trivial = at least 3 buffers were returned to the allocators in the run; distinct = fingerprint of the underlying case",
-		Real: []string{"nbhttp.Response / Parser / BodyReader / ServerProcessor, websocket.Conn (transformed real code)"},
-		Stub: []string{"allocators: ownership tracker (the seam is the public mempool.Allocator interface)", "transport: in-memory connections with write-failure injection"},
-		Assumptions: []string{"this check is single-threaded: ownership errors that need a close racing an in-flight handler or the websocket send-queue drainer are only reachable in the e2e world (C10/C14), which installs the same tracker when claimed",
-			"leaks (buffers never returned) are counted as a probe only; the property does not demand their absence"},
+		World: "e2e", Level: "exploration", QuickS: 40, ThoroughS: 900,
+		Rule: "the primary oracle is the ownership-tracking allocator installed as mempool.DefaultMemPool and as the engine's BodyAllocator: Free/Append/AppendString/Realloc on a freed or foreign buffer, second Free, write into a quarantined (poisoned, never recycled) buffer, poison in parser output or in the parser's carry-over buffer when the input has no such byte (read after free), poison on the wire. Half of the cases are single-threaded (stream scenarios): the C09 handler programs (half with transport write failures, biased to 64KiB-crossing writes), the C12 round trips (40% with sender transport failures), the C13 byzantine frame sequences, the C08 corrupted request streams through ServerProcessor/BodyReader, the C15 limit scenarios and pipelined messages in 32 random segmentations each. The other half are the close races: the C14 WebSocket scenarios (all five upgrade paths, concurrent writers, send queue, compression, resets, application close) and the C10 HTTP server scenarios (pipelining, Flush, split writes, closing exchanges) on the simulated kernel under the seeded scheduler, with the same trackers; non-trivial = at least 3 buffers were returned to the allocators in the run; distinct = fingerprint of the underlying case / schedule",
+		Real: []string{"nbhttp.Response / Parser / BodyReader / ServerProcessor, websocket.Conn, nbhttp.Engine, nbio.Engine / Conn write queue (transformed real code)"},
+		Stub: append([]string{"allocators: ownership tracker (the seam is the public mempool.Allocator interface); it never recycles memory, so the pool's own reuse policy is not part of these runs (C20 covers it)", "transport: in-memory connections with write-failure injection (stream scenarios), simulated kernel (e2e scenarios)"}, stubCommon...),
+		Assumptions: append([]string{"leaks (buffers never returned) are counted as a probe only; the property does not demand their absence",
+			"TLS paths are not explored"}, assumeCommon...),
 	},
 	"C20": {
 		World: "stream", Level: "exploration", QuickS: 25, ThoroughS: 600,
